@@ -26,6 +26,8 @@ BOUND = {
     "quick": "text strings of <=2 fragments x 9 channels x 4 reference placements x clean_text_values {yes,no}; grid subsets <=2 x 2 default languages; 22 default tokens x 11 types x {top, repeat}; type catalogue x 5 decorations x 3 contexts; L(4,3) x 3 rotations",
     "thorough": "text strings of <=3 fragments; grid subsets <=3 (core); other generators as quick with L(5,3)",
 }
+# as-built additions to the bound (kept next to BOUND so that the evidence reports them)
+BOUND = {k: v + "; plus: " + '13 multi-line texts (references alone on their line, tabs, CR LF) x 9 channels; dict input with numeric / boolean cells (subsets <=2 / <=4 of 10 cells)' for k, v in BOUND.items()}
 TEXT_CH = ["label", "hint", "guidance_hint", "constraint_message", "glabel", "clabel", "cextra", "default", "form_title"]
 
 
